@@ -501,7 +501,7 @@ Section NetFacts.
     intros pre o post s v ph Ho He n.
     assert (H : cmat n <> None).
     { unfold n. rewrite run_app. simpl. apply run_keeps_matrix. apply accepted_sets_matrix; auto. }
-    unfold register_evse. destruct (cmat n); congruence.
+    unfold register_evse. destruct (cmat n); [reflexivity | congruence].
   Qed.
 
   (* and conversely: as long as no add/update has been accepted, registration is open *)
